@@ -246,3 +246,45 @@ Proof.
   rewrite (apply_updates_nth (fun c => nassoc c (i_pending i)) (sorted_pending (i_pending i)) (fun c v => In_sorted_pending c v _)) by lia.
   rewrite mem_sorted_pending, mem_nkeys_nassoc. destruct (nassoc c (i_pending i)); [congruence|exact Hs].
 Qed.
+
+(* ------------------------------------------------------------------ the keyword arguments of a create *)
+Lemma fill_defaults_spec cols : forall d kw,
+  fill_defaults cols d = Some kw -> NoDup (nkeys d) ->
+  NoDup (nkeys kw) /\ (forall c, In c cols -> nassoc c kw <> None) /\ (forall c, nassoc c d <> None -> nassoc c kw <> None).
+Proof.
+  induction cols as [|c0 r IH]; intros d kw H Hnd; cbn [fill_defaults] in H.
+  - inversion H; subst. split; [exact Hnd|]. split; [intros c []|auto].
+  - destruct (nassoc c0 d) eqn:E0.
+    + destruct (IH d kw H Hnd) as (A & B & C). split; [exact A|]. split; [|exact C].
+      intros c [<-|Hc]; [apply C; congruence|exact (B c Hc)].
+    + destruct (col_default c0) as [dv|]; [|discriminate].
+      destruct (IH (nassoc_set c0 dv d) kw H (NoDup_nassoc_set c0 dv d Hnd)) as (A & B & C).
+      split; [exact A|]. split.
+      * intros c [<-|Hc]; [apply C; rewrite nassoc_set_same; discriminate|exact (B c Hc)].
+      * intros c Hc. apply C. destruct (Nat.eq_dec c0 c) as [->|Hne]; [rewrite nassoc_set_same; discriminate|].
+        now rewrite nassoc_set_other.
+Qed.
+
+(* what a freshly created instance shows before its reload is what was inserted *)
+Lemma create_vals kw :
+  NoDup (nkeys kw) -> (forall c, In c all_cols -> nassoc c kw <> None) ->
+  let vs := fold_left (fun vs cv => set_nth (fst cv) (Some (snd cv)) vs) kw [None; None; None] in
+  vals3 vs /\ forall c v, nth c vs None = Some v -> nth c (apply_updates (sorted_pending kw) [VNull; VNull; VNull]) VNull = v.
+Proof.
+  intros Hnd Hall vs.
+  assert (Hn : forall c, (c < 3)%nat -> nth c vs None = nassoc c kw).
+  { intros c Hc. unfold vs. rewrite (fold_set_nth_nth (fun c => nassoc c kw) kw (nodup_fun kw Hnd)) by (cbn; exact Hc).
+    rewrite mem_nkeys_nassoc. destruct (nassoc c kw) eqn:E; [reflexivity|].
+    exfalso. apply (Hall c); [|exact E]. unfold all_cols. destruct c as [|[|[|c]]]; cbn; auto. lia. }
+  assert (Hl : length vs = 3%nat) by (unfold vs; now rewrite fold_set_nth_length).
+  split.
+  - destruct vs as [|a [|b [|d [|e vs']]]]; try discriminate Hl.
+    pose proof (Hn 0%nat ltac:(lia)) as E0. pose proof (Hn 1%nat ltac:(lia)) as E1. pose proof (Hn 2%nat ltac:(lia)) as E2. cbn in E0, E1, E2.
+    destruct (nassoc 0%nat kw) as [x0|] eqn:N0; [|exfalso; apply (Hall 0%nat); cbn; auto].
+    destruct (nassoc 1%nat kw) as [x1|] eqn:N1; [|exfalso; apply (Hall 1%nat); cbn; auto].
+    destruct (nassoc 2%nat kw) as [x2|] eqn:N2; [|exfalso; apply (Hall 2%nat); cbn; auto].
+    subst. exists x0, x1, x2. reflexivity.
+  - intros c v Hv. pose proof (nth_some_lt _ _ _ Hv) as Hlt. rewrite Hl in Hlt. rewrite (Hn c Hlt) in Hv.
+    rewrite (apply_updates_nth (fun c => nassoc c kw) (sorted_pending kw) (fun c v => In_sorted_pending c v kw)) by (cbn; exact Hlt).
+    rewrite mem_sorted_pending, mem_nkeys_nassoc, Hv. reflexivity.
+Qed.
